@@ -10,6 +10,10 @@ from .core import (PathAbort, Inconclusive, CheckFailed, SymInt, SymBool, SymFlo
                    Vec, Arr, Conc, bterm, bv, mkint, mkbool, W)
 
 
+import os as _os
+_DEBUG = _os.environ.get('VERIF_DEBUG') == '1'
+
+
 class HarnessError(Exception):
     """The machinery itself is wrong (non-reproducing counterexample, shim mismatch)."""
 
@@ -147,6 +151,9 @@ class Concrete(_Base):
         hi = len(a) if hi is None else hi
         self.check(len(a) == len(b) and a[lo:hi] == b[lo:hi], site, detail)
 
+    def check_same(self, a, b, site, detail=""):
+        self.check(a == b, site, detail)
+
     def observe(self, name, value):
         self.obs.append((name, value))
 
@@ -177,8 +184,17 @@ class Sym(_Base):
         st = self.ex.stats
         st.queries += 1
         t0 = time.perf_counter()
+        if _DEBUG:
+            s2 = z3.Solver()
+            s2.add(self.solver.assertions())
+            s2.add(*extra)
+            with open("/tmp/sx_last_query.smt2", "w") as f:
+                f.write(s2.to_smt2())
         r = self.solver.check(*extra)
-        st.solver_s += time.perf_counter() - t0
+        dt = time.perf_counter() - t0
+        st.solver_s += dt
+        if _DEBUG and dt > 0.5:
+            print(f"[query {dt:.1f}s -> {r}] assertions={len(self.solver.assertions())} extra={[str(e)[:200] for e in extra]}", flush=True)
         if r == z3.unknown:
             raise Inconclusive(f"solver answered unknown: {self.solver.reason_unknown()}")
         return r == z3.sat
@@ -186,6 +202,9 @@ class Sym(_Base):
     def _add(self, term):
         self.solver.add(term)
         self.npc += 1
+        # invariant: self.model, when set, satisfies the whole path condition
+        if self.model is not None and not z3.is_true(self.model.eval(term, model_completion=True)):
+            self.model = None
 
     def _need_model(self):
         if self.model is None:
@@ -401,6 +420,19 @@ class Sym(_Base):
         # continue the path under the assumption that the check holds
         self.assume(mkbool(t))
 
+    def check_same(self, a, b, site, detail=""):
+        """a == b, discharged without the solver when both are the *same term*
+        (structural identity => equal values; used for float results whose formula
+        is already proved elsewhere).  Falls back to a solver check otherwise."""
+        ta, tb = getattr(a, "t", None), getattr(b, "t", None)
+        if ta is not None and tb is not None and ta.eq(tb):
+            st = self.ex.stats
+            st.reach[site] = st.reach.get(site, 0) + 1
+            st.checks += 1
+            st.checks_trivial += 1
+            return
+        self.check(a == b, site, detail)
+
     def check_bytes_equal(self, a, b, site, lo=0, hi=None, detail=""):
         """a[i] == b[i] for all lo <= i < hi (skolem index), and equal lengths."""
         a = a if isinstance(a, SymBytesBase) else Conc(a)
@@ -408,7 +440,10 @@ class Sym(_Base):
         n = a.length
         hi = n if hi is None else hi
         self.ex.skolems += 1
-        i = SymInt(z3.BitVec(f"_sk{self.ex.skolems}", W), 0, (hi.hi if isinstance(hi, SymInt) else hi))
+        top = hi.hi if isinstance(hi, SymInt) else hi
+        sk = z3.BitVec(f"_sk{self.ex.skolems}", W)
+        self._add(z3.And(sk >= 0, sk <= top))      # fresh variable: restricts nothing else
+        i = SymInt(sk, 0, top)
         rng = core.And(i >= lo, i < hi)
         cond = core.And(a.length == b.length, core.Implies(rng, a._at(i) == b._at(i)))
         self.check(cond, site, detail)
@@ -437,7 +472,7 @@ class Explorer:
 
     def __init__(self, scenario, *, unit="", max_paths=20000, max_depth=400, max_fanout=300,
                  time_budget=None, query_timeout_ms=60000, on_counterexample=None, validate=True,
-                 max_known_rounds=8):
+                 max_known_rounds=8, tactic=None, ratio_floats=False):
         self.scenario = scenario
         self.unit = unit
         self.max_paths = max_paths
@@ -446,7 +481,8 @@ class Explorer:
         self.time_budget = time_budget
         self.validate = validate
         self.max_known_rounds = max_known_rounds
-        self.solver = z3.Solver()
+        self.solver = z3.Tactic(tactic).solver() if tactic else z3.Solver()
+        self.ratio_floats = ratio_floats
         self.solver.set("timeout", query_timeout_ms)
         self.frontier = [[]]
         self.stats = Stats()
@@ -487,6 +523,7 @@ class Explorer:
         sym = Sym(self, prefix)
         self.solver.push()
         core._CTX = sym
+        core.RATIO_MODE[0] = self.ratio_floats
         model = None
         try:
             try:
@@ -509,6 +546,7 @@ class Explorer:
             st.inconclusive.append(f"{self.unit}: {e} @trace-depth {len(sym.trace)}")
         finally:
             core._CTX = None
+            core.RATIO_MODE[0] = False
         try:
             if model is not None:
                 inputs = sym.model_inputs(model)
